@@ -384,8 +384,13 @@ func loadPkg3(dir, importPath string, imp types.Importer) (*pkgInfo, error) {
 	if err != nil {
 		return nil, err
 	}
+	var pkgNames []string
 	for _, pk := range parsed {
-		if strings.HasSuffix(pk.Name, "_test") || pk.Name == "main" {
+		if strings.HasSuffix(pk.Name, "_test") {
+			continue
+		}
+		pkgNames = append(pkgNames, pk.Name)
+		if pk.Name == "main" && len(parsed) > 1 {
 			continue
 		}
 		p.name = pk.Name
@@ -421,6 +426,9 @@ func loadPkg3(dir, importPath string, imp types.Importer) (*pkgInfo, error) {
 		}
 	}}
 	p.tpkg, _ = conf.Check(importPath, p.fset, p.files, p.info)
+	if err := checkPkgDecls(p, pkgNames); err != nil {
+		return nil, err
+	}
 	return p, nil
 }
 
@@ -501,6 +509,10 @@ Module Go3.
 (* *p, p.f, p.M(..) for a pointer p *)
 Definition deref {A} (p : option A) : res A := match p with Some a => Ok a | None => Panic 5 end.
 Definition isnil {A} (p : option A) : bool := match p with Some _ => false | None => true end.
+(* p.M(..) for an abstract object p: nil (X_isnil p) is Panic 5 *)
+Definition nonnil (isnil : bool) : res unit := if isnil then Panic 5 else Ok tt.
+(* a dependency called outside its domain panics (kind 7); the condition is the documented precondition *)
+Definition require (ok : bool) : res unit := if ok then Ok tt else Panic 7.
 
 (* errors: see the header *)
 Definition sentinel_base : N := 1000.
